@@ -68,6 +68,17 @@ def ty_of(e):
         return e[3]
     if k == 'struct':
         return 'obj:' + e[1]
+    if k == 'tup':
+        return 'tup'
+    if k == 'lst':
+        et = ty_of(e[2])
+        if et == 'tup' and [ty_of(x) for x in e[2][1]] == ['str', 'num']:
+            return 'dict:num'
+        return 'list:' + et
+    if k == 'nan':
+        return 'nan'
+    if k == 'opaque':
+        raise Untranslatable('use of a value the translator does not model (%s)' % e[1])
     raise Untranslatable('type of %r' % (e,))
 
 
@@ -154,18 +165,48 @@ def pr(e):
     if k == 'call':
         name, args = e[1], e[2]
         return BUILTIN_PRINT[name](args)
+    if k == 'tup':
+        return '(' + ', '.join((as_num(x) if ty_of(x) in ('num',) else pr(x)) for x in e[1]) + ')'
+    if k == 'lst':
+        base, elem = e[1], e[2]
+        if elem == ELEM_ID:
+            return base
+        return '(List.map (fun x => %s) %s)' % ((as_num(elem) if ty_of(elem) == 'num' else pr(elem)), base)
     if k == 'struct':
         return '{ ' + ', '.join('%s := %s' % (f, (as_num(v) if t == 'num' else pr(v))) for f, t, v in e[2]) + ' }'
     raise Untranslatable('print %r' % (e,))
 
 
+ELEM_ID = ('tup', [('var', 'x.1', 'str'), ('var', 'x.2', 'num')])
+
+
+def _pr_any(a):
+    lst = a[0]
+    return '(List.any %s (fun x => %s))' % (lst[1], pr(lst[2]))
+
+
+def _pr_sum(fn):
+    def f(a):
+        lst = a[0]
+        if lst[2] == ('var', 'x.2', 'num'):
+            return '(%s (List.map (·.2) %s))' % (fn, lst[1])
+        return '(%s (List.map (fun x => %s) %s))' % (fn, as_num(lst[2]), lst[1])
+    return f
+
+
 BUILTIN_PRINT = {
+    'anyL': _pr_any,
+    'sumNeumaier': _pr_sum('sumNeumaier'),
+    'sumNaive': _pr_sum('sumNaive'),
+    'lenL': lambda a: '(%s.length : Int)' % a[0][1],
+    'feeTotal': lambda a: '(fee.totalCost %s)' % as_num(a[0]),
     'abs_num': lambda a: '(abs %s)' % as_num(a[0]),
     'abs_int': lambda a: '(Int.natAbs %s : Int)' % pr(a[0]),
     'floorI': lambda a: '(floorI %s)' % as_num(a[0]),
     'ceilI': lambda a: '(ceilI %s)' % as_num(a[0]),
     'truncI': lambda a: '(Num.truncI %s)' % as_num(a[0]),
     'floorF': lambda a: '(ofInt (floorI %s))' % as_num(a[0]),
+    'truncF': lambda a: '(ofInt (Num.truncI %s))' % as_num(a[0]),
     'ceilF': lambda a: '(ofInt (ceilI %s))' % as_num(a[0]),
     'roundI': lambda a: '(Num.roundHalfEvenI %s)' % as_num(a[0]),
     'round2': lambda a: '(round2 %s)' % as_num(a[0]),
@@ -227,6 +268,8 @@ class ClassUnit:
         if not self.methods:
             raise Untranslatable('class %s not found in %s' % (cls, path))
         self.attr_types = attr_types          # python attr -> type
+        self.expr_subst = {}                  # unparsed expression -> sym: reads of other components' state
+        self.call_subst = []                  # [(suffix of the unparsed callee, handler)]: calls into other components
         self.callables = {}                   # python property -> (Lean call text, type): kept as calls, not inlined
         self.base_fields = None
         self.deps = set()
@@ -239,6 +282,10 @@ class ClassUnit:
 
     # -- expressions -------------------------------------------------------------------------------------
     def ev(self, n, ctx, depth=0):
+        if self.expr_subst and isinstance(n, (ast.Attribute, ast.Subscript, ast.Call)):
+            txt = ast.unparse(n)
+            if txt in self.expr_subst:
+                return self.expr_subst[txt]
         if isinstance(n, ast.Constant):
             if isinstance(n.value, str):
                 return ('var', json.dumps(n.value), 'str')
@@ -247,8 +294,12 @@ class ClassUnit:
             return lit(n.value)
         if isinstance(n, ast.Name):
             if n.id in ctx.locs:
+                if ctx.locs[n.id][0] == 'opaque':
+                    raise Untranslatable('use of `%s`, which the translator does not model (%s)' % (n.id, ctx.locs[n.id][1]))
                 return ctx.locs[n.id]
             raise Untranslatable('unknown name %s' % n.id)
+        if isinstance(n, ast.Attribute) and isinstance(n.value, ast.Name) and n.value.id in ('np', 'numpy', 'math') and n.attr == 'nan':
+            return ('nan',)
         if isinstance(n, ast.Attribute):
             if isinstance(n.value, ast.Name) and n.value.id == ctx.self_name:
                 if n.attr in ctx.fields:
@@ -306,6 +357,12 @@ class ClassUnit:
                     return ('blit', same if isinstance(op, ast.Is) else not same)
                 if type(op) not in ops:
                     raise Untranslatable('comparison %s' % type(op).__name__)
+                if isinstance(op, (ast.Eq, ast.NotEq)) and len(n.ops) == 1:
+                    # a number is never NaN on the carrier: `x == nan`, `(a, b) == (nan, nan)` are False
+                    def has_nan(v):
+                        return v[0] == 'nan' or (v[0] == 'tup' and any(has_nan(y) for y in v[1]))
+                    if has_nan(left) or has_nan(right):
+                        return ('blit', isinstance(op, ast.NotEq))
                 parts.append(('cmp', ops[type(op)], left, right))
                 left = right
             return parts[0] if len(parts) == 1 else ('and', parts)
@@ -316,9 +373,41 @@ class ClassUnit:
             return ('ite', self.truth(self.ev(n.test, ctx, depth)), self.ev(n.body, ctx, depth), self.ev(n.orelse, ctx, depth))
         if isinstance(n, ast.Call):
             return self.ev_call(n, ctx, depth)
-        if isinstance(n, ast.Tuple) or isinstance(n, ast.Subscript):
-            raise Untranslatable(type(n).__name__)
+        if isinstance(n, ast.Tuple):
+            return ('tup', [self.ev(x, ctx, depth) for x in n.elts])
+        if isinstance(n, ast.Subscript):
+            base = self.ev(n.value, ctx, depth)
+            idx = n.slice
+            if base[0] == 'tup' and isinstance(idx, ast.Constant) and isinstance(idx.value, int) and 0 <= idx.value < len(base[1]):
+                return base[1][idx.value]
+            raise Untranslatable('subscript')
+        if isinstance(n, (ast.ListComp, ast.GeneratorExp, ast.DictComp)):
+            if len(n.generators) != 1 or n.generators[0].ifs or n.generators[0].is_async:
+                raise Untranslatable('comprehension shape')
+            g = n.generators[0]
+            src = self.ev(g.iter, ctx, depth)
+            if src[0] != 'lst':
+                raise Untranslatable('comprehension over a %s' % src[0])
+            c2 = ctx.copy()
+            self.bind_pattern(g.target, src[2], c2)
+            if isinstance(n, ast.DictComp):
+                elem = ('tup', [self.ev(n.key, c2, depth), self.ev(n.value, c2, depth)])
+            else:
+                elem = self.ev(n.elt, c2, depth)
+            out = ('lst', src[1], elem)
+            ty_of(out)
+            return out
         raise Untranslatable('expression %s' % type(n).__name__)
+
+    def bind_pattern(self, target, value, ctx):
+        if isinstance(target, ast.Name):
+            ctx.locs[target.id] = value
+            return
+        if isinstance(target, ast.Tuple) and value[0] == 'tup' and len(target.elts) == len(value[1]):
+            for t, v in zip(target.elts, value[1]):
+                self.bind_pattern(t, v, ctx)
+            return
+        raise Untranslatable('binding pattern')
 
     def truth(self, e):
         if ty_of(e) != 'bool':
@@ -327,6 +416,16 @@ class ClassUnit:
 
     def ev_call(self, n, ctx, depth):
         f = n.func
+        ftxt = ast.unparse(f)
+        for pat, handler in self.call_subst:
+            if ftxt.endswith(pat):
+                return handler(self, n, ctx, depth)
+        if isinstance(f, ast.Attribute) and f.attr in ('values', 'items', 'keys') and not n.args and not n.keywords:
+            base = self.ev(f.value, ctx, depth)
+            if base[0] == 'lst' and ty_of(base) == 'dict:num':
+                k_, v_ = base[2][1]
+                return ('lst', base[1], {'values': v_, 'items': base[2], 'keys': k_}[f.attr])
+            raise Untranslatable('.%s() of a %s' % (f.attr, base[0]))
         args = [self.ev(a, ctx, depth) for a in n.args]
         kw = {k.arg: self.ev(k.value, ctx, depth) for k in n.keywords}
         name = None
@@ -359,7 +458,9 @@ class ClassUnit:
             return args[0]
         if name == 'abs' or name == 'np.abs' or name == 'np.fabs' or name == 'math.fabs':
             a = one()
-            return ('call', 'abs_int' if ty_of(a) == 'int' else 'abs_num', [a], ty_of(a) if ty_of(a) == 'int' else 'num')
+            if ty_of(a) == 'int':
+                return ('call', 'abs_int', [a], 'int')
+            return ('call', 'abs_num', [a], 'num', 'np') if name.startswith('np.') else ('call', 'abs_num', [a], 'num')
         if name in ('floor', 'math.floor'):
             a = one()
             return a if ty_of(a) == 'int' else ('call', 'floorI', [a], 'int')
@@ -381,6 +482,8 @@ class ClassUnit:
                 return ('call', 'floorI', a[2], 'int')
             if a[0] == 'call' and a[1] == 'ceilF':
                 return ('call', 'ceilI', a[2], 'int')
+            if a[0] == 'call' and a[1] == 'truncF':
+                return ('call', 'truncI', a[2], 'int')
             return ('call', 'truncI', [a], 'int')
         if name == 'float':
             a = one()
@@ -402,7 +505,34 @@ class ClassUnit:
         if name == 'np.isclose':
             if len(args) == 2 and args[1][0] == 'lit' and args[1][1] == 0 and not kw:
                 return ('call', 'isCloseZero', [args[0]], 'bool')
+            if len(args) == 2 and not kw and ty_of(args[0]) in ('num', 'int') and ty_of(args[1]) in ('num', 'int'):
+                # |a - b| <= atol + rtol * |b| with numpy's defaults (atol is the carrier's `tiny`, rtol = 1e-5)
+                a, b = args
+                rhs = ('bin', '+', ('var', 'tiny', 'num'), ('bin', '*', ('lit', Fraction(1, 100000), 'num'), ('call', 'abs_num', [b], 'num')))
+                return ('cmp', '<=', ('call', 'abs_num', [('bin', '-', a, b)], 'num'), rhs)
             raise Untranslatable('isclose with these arguments')
+        if name in ('np.trunc',):
+            a = one()
+            return ('call', 'truncF', [a], 'num', 'np')
+        if name in ('math.trunc',):
+            a = one()
+            return a if ty_of(a) == 'int' else ('call', 'truncI', [a], 'int')
+        if name == 'sorted' and len(args) == 1 and not kw and args[0][0] == 'tup' and len(args[0][1]) == 2 and \
+                all(ty_of(x) == 'num' for x in args[0][1]):
+            a, b = args[0][1]
+            c = ('cmp', '<', b, a)
+            return ('tup', [('ite', c, b, a), ('ite', c, a, b)])
+        if name == 'any' and len(args) == 1 and args[0][0] == 'lst' and ty_of(args[0][2]) == 'bool':
+            return ('call', 'anyL', [args[0]], 'bool')
+        if name == 'sum' and len(args) == 1 and args[0][0] == 'lst' and ty_of(args[0][2]) == 'num':
+            # CPython's sum() over `float` items is Neumaier-compensated; over numpy.float64 items (results of np.*) it is a left fold
+            el = args[0][2]
+            npy = el[0] == 'call' and len(el) > 4 and el[4] == 'np'
+            return ('call', 'sumNaive' if npy else 'sumNeumaier', [args[0]], 'num')
+        if name == 'len' and len(args) == 1 and args[0][0] == 'lst':
+            return ('call', 'lenL', [args[0]], 'int')
+        if name == 'np.isnan' and len(args) == 1 and ty_of(args[0]) in ('num', 'int'):
+            return ('blit', False)            # a carrier element is a number
         if name in ('max', 'min') and len(args) == 2 and not kw:
             a, b = args
             # Python: max(a, b) returns a unless b > a; min(a, b) returns a unless b < a
@@ -783,6 +913,268 @@ POSITION = Unit(
 
 UNITS = [POSITION]
 
+
+# ------------------------------------------------------------------------------------------------------------
+# kernel units: functions whose `self` attributes are plain binders, and "kernels" (the computation a method performs
+# up to a designated sink, with calls into other components replaced by parameters)
+
+class KFn:
+    def __init__(self, key, path, cls, py, lean, binders, fields, params, ret, statement, defs, kind='pure', subst=(), sink=None,
+                 loop_bind=None, obj_types=None, expr_subst=None):
+        self.expr_subst = expr_subst or {}
+        self.key, self.path, self.cls, self.py, self.lean = key, path, cls, py, lean
+        self.binders = binders          # [(lean name, lean type)]
+        self.fields = fields            # python self attribute -> sym
+        self.params = params            # python parameter -> sym
+        self.ret = ret                  # 'num' | 'int' | 'dict:num' | 'exc:dict:num' | 'struct'
+        self.statement = statement      # tie statement, `GEN` stands for the generated function's full name
+        self.defs = defs
+        self.kind, self.subst, self.sink, self.loop_bind = kind, list(subst), sink, loop_bind
+        self.obj_types = obj_types or {}
+
+
+def contains(node, pred):
+    return any(pred(x) for x in ast.walk(node))
+
+
+def run_kernel(cu, stmts, ctx, fn, depth=0):
+    stmts = [s for s in stmts if not is_noop_stmt(s)]
+    if not stmts:
+        raise Untranslatable('the sink is not reached')
+    s, rest = stmts[0], stmts[1:]
+    v = fn.sink(cu, s, ctx)
+    if v is not None:
+        return ('ret', v, ctx)
+    if isinstance(s, ast.For):
+        if fn.loop_bind is None or s.orelse:
+            raise Untranslatable('loop')
+        c2 = ctx.copy()
+        cu.bind_pattern(s.target, fn.loop_bind, c2)
+        return run_kernel(cu, list(s.body), c2, fn, depth)
+    if isinstance(s, (ast.Assign, ast.AugAssign)):
+        tgt = s.targets[0] if isinstance(s, ast.Assign) else s.target
+        if isinstance(s, ast.Assign) and len(s.targets) != 1:
+            raise Untranslatable('multiple assignment')
+        try:
+            if isinstance(s, ast.Assign):
+                val = cu.ev(s.value, ctx, depth)
+            else:
+                ops = {ast.Add: '+', ast.Sub: '-', ast.Mult: '*', ast.Div: '/'}
+                val = ('bin', ops[type(s.op)], cu.ev(s.target, ctx, depth), cu.ev(s.value, ctx, depth))
+                ty_of(val)
+        except (Untranslatable, KeyError) as e:
+            val = ('opaque', str(e))
+        if isinstance(tgt, ast.Name):
+            ctx.locs[tgt.id] = val
+        elif isinstance(tgt, ast.Tuple):
+            if val[0] == 'tup' and len(val[1]) == len(tgt.elts) and all(isinstance(e_, ast.Name) for e_ in tgt.elts):
+                for e_, v_ in zip(tgt.elts, val[1]):
+                    ctx.locs[e_.id] = v_
+            else:
+                for e_ in ast.walk(tgt):
+                    if isinstance(e_, ast.Name):
+                        ctx.locs[e_.id] = ('opaque', 'unpacking of a value the translator does not model')
+        elif val[0] != 'opaque':
+            cu.assign(tgt, val, ctx)
+        return run_kernel(cu, rest, ctx, fn, depth)
+    if isinstance(s, ast.If):
+        try:
+            c = cu.truth(cu.ev(s.test, ctx, depth))
+        except Untranslatable:
+            # a guard on something outside the kernel: allowed only if it cannot lead to the sink
+            if contains(s, lambda x: isinstance(x, ast.stmt) and x is not s and fn.sink(cu, x, ctx.copy()) is not None) or \
+                    contains(s, lambda x: isinstance(x, ast.For)):
+                raise
+            # whatever the skipped statement may assign is unknown from here on
+            for x in ast.walk(s):
+                if isinstance(x, ast.Name) and isinstance(x.ctx, ast.Store):
+                    ctx.locs[x.id] = ('opaque', 'assigned under a condition the translator does not model')
+                if isinstance(x, ast.Attribute) and isinstance(x.ctx, ast.Store):
+                    raise Untranslatable('attribute assigned under a condition the translator does not model')
+            return run_kernel(cu, rest, ctx, fn, depth)
+        if c[0] == 'blit':
+            return run_kernel(cu, (list(s.body) if c[1] else list(s.orelse)) + rest, ctx, fn, depth)
+        return ('if', c, run_kernel(cu, list(s.body) + rest, ctx.copy(), fn, depth), run_kernel(cu, list(s.orelse) + rest, ctx.copy(), fn, depth))
+    if isinstance(s, ast.Raise):
+        return ('raise', 'ValueError', ctx)
+    if isinstance(s, ast.Return):
+        raise Untranslatable('return before the sink')
+    if isinstance(s, ast.Expr):
+        return run_kernel(cu, rest, ctx, fn, depth)      # a call for effect cannot rebind a local
+    raise Untranslatable('statement %s' % type(s).__name__)
+
+
+def translate_kfn(fn):
+    """-> (lean def text | None, reason | None)"""
+    try:
+        cu = ClassUnit(fn.path, fn.cls, {a: ty_of(v) for a, v in fn.fields.items()}, fn.obj_types)
+        cu.call_subst = list(fn.subst)
+        cu.expr_subst = dict(fn.expr_subst)
+        if fn.py not in cu.methods:
+            raise Untranslatable('method %s.%s not found' % (fn.cls, fn.py))
+        m = cu.methods[fn.py]
+        pyparams = [a.arg for a in m.args.args][1:]
+        if pyparams[:len(fn.params)] != [p for p, _ in fn.params]:
+            raise Untranslatable('signature of %s is (%s)' % (fn.py, ', '.join(pyparams)))
+        fields = dict(fn.fields)
+        cu.base_fields = None
+        binders = ''.join(' (%s : %s)' % b for b in fn.binders)
+        if fn.kind == 'kernel':
+            ctx = Ctx(cu, dict(fields), {p: v for p, v in fn.params})
+            for p_, d_ in zip(pyparams[len(pyparams) - len(m.args.defaults):], m.args.defaults):
+                ctx.locs.setdefault(p_, ('opaque', 'default argument'))
+            for p_ in pyparams:
+                ctx.locs.setdefault(p_, ('opaque', 'parameter %s' % p_))
+            tree = run_kernel(cu, list(m.body), ctx, fn)
+        else:
+            ctx = Ctx(cu, dict(fields), {})
+            tree = cu.run_method(fn.py, [v for _, v in fn.params], {}, ctx, 0)
+        exc = fn.ret.startswith('exc:')
+        rt = fn.ret[4:] if exc else fn.ret
+
+        def val(v):
+            if v is None:
+                raise Untranslatable('no value')
+            got = ty_of(v)
+            if rt == 'num':
+                return as_num(v)
+            if rt == 'struct':
+                if v[0] != 'struct':
+                    raise Untranslatable('the sink is not a constructor call')
+                return pr(v)
+            if got != rt:
+                raise Untranslatable('returns a %s, expected %s' % (got, rt))
+            return pr(v)
+
+        def leaf(t):
+            if t[0] == 'raise':
+                if not exc:
+                    raise Untranslatable('raise in a function modelled as total')
+                return '(.error %s)' % ERR[t[1]]
+            for a in fields:
+                if t[2].fields[a] is not fields[a]:
+                    raise Untranslatable('attribute write')
+            return ('(.ok %s)' % val(t[1])) if exc else val(t[1])
+        lt = {'num': 'α', 'int': 'Int', 'dict:num': 'Qs.Weights α', 'struct': 'Qs.Txn α'}[rt]
+        rty = ('Except Err (%s)' % lt) if exc else lt
+        body = pr_tree(tree, leaf, 1)
+        return 'def %s%s : %s :=\n  %s\n' % (fn.lean.split('.')[-1], binders, rty, body), None
+    except Untranslatable as e:
+        return None, str(e)
+    except (RecursionError, KeyError, IndexError) as e:
+        return None, 'translator limit: %s' % type(e).__name__
+
+
+def _fee_subst(cu, n, ctx, depth):
+    # <...>.fee_model.calc_total_cost(asset, quantity, consideration, broker): the fee model is a parameter of the kernel
+    if len(n.args) < 3:
+        raise Untranslatable('calc_total_cost call shape')
+    return ('call', 'feeTotal', [cu.ev(n.args[2], ctx, depth)], 'num')
+
+
+def _const_subst(sym):
+    return lambda cu, n, ctx, depth: sym
+
+
+def _sizer_sink(cu, s, ctx):
+    if isinstance(s, ast.Assign) and len(s.targets) == 1 and isinstance(s.targets[0], ast.Subscript) and \
+            isinstance(s.targets[0].value, ast.Name) and s.targets[0].value.id == 'target_portfolio' and isinstance(s.value, ast.Dict) and \
+            len(s.value.keys) == 1 and isinstance(s.value.keys[0], ast.Constant) and s.value.keys[0].value == 'quantity':
+        try:
+            return cu.ev(s.value.values[0], ctx, 0)
+        except Untranslatable:
+            raise
+    return None
+
+
+def _txn_sink(cu, s, ctx):
+    if isinstance(s, ast.Assign) and isinstance(s.value, ast.Call) and isinstance(s.value.func, ast.Name) and s.value.func.id == 'Transaction':
+        names = ['asset', 'quantity', 'dt', 'price', 'order_id', 'commission']
+        vals = {}
+        for nm, a in zip(names, s.value.args):
+            vals[nm] = cu.ev(a, ctx, 0)
+        for k in s.value.keywords:
+            vals[k.arg] = cu.ev(k.value, ctx, 0)
+        if sorted(vals) != sorted(names):
+            raise Untranslatable('Transaction(...) call shape')
+        want = dict(asset='str', quantity='int', dt='int', price='num', order_id='nat', commission='num')
+        for k, t in want.items():
+            got = ty_of(vals[k])
+            if got != t and not (t == 'num' and got == 'int'):
+                raise Untranslatable('Transaction %s : %s given a %s' % (k, t, got))
+        return ('struct', 'Txn', [('asset', 'str', vals['asset']), ('qty', 'int', vals['quantity']), ('time', 'int', vals['dt']),
+                                  ('price', 'num', vals['price']), ('commission', 'num', vals['commission']),
+                                  ('orderId', 'nat', vals['order_id'])])
+    return None
+
+
+W = ('lst', 'w', ELEM_ID)
+ORDER_OBJ = dict(Order=dict(asset=('asset', 'str'), quantity=('qty', 'int'), order_id=('id', 'nat'),
+                            direction=(lambda base: ('ite', ('cmp', '<', V('%s.qty' % pr(base), 'int'), ('lit', Fraction(0), 'int')),
+                                                     ('lit', Fraction(-1), 'int'), ('lit', Fraction(1), 'int')), 'int')))
+FEE_PARAMS = [('asset', V('asset', 'str')), ('quantity', V('q', 'int')), ('consideration', V('x', 'num'))]
+SIZER_DEFS = ['Qs.dwQuantity', 'Qs.lsQuantity', 'Qs.dwNormalise', 'Qs.lsNormalise', 'Qs.FeeModel.totalCost', 'Num.truncI', 'Num.isCloseZero']
+
+KFNS = [
+    KFn('PercentFee.totalCost', 'qstrader/broker/fee_model/percent_fee_model.py', 'PercentFeeModel', 'calc_total_cost', 'PercentFee.totalCost',
+        binders=[('c', 'α'), ('τ', 'α'), ('asset', 'String'), ('q', 'Int'), ('x', 'α')],
+        fields=dict(commission_pct=V('c', 'num'), tax_pct=V('τ', 'num')), params=FEE_PARAMS, ret='num',
+        statement='(c τ : α) (asset : String) (q : Int) (x : α) :\n    GEN c τ asset q x = Qs.FeeModel.totalCost (.percent c τ) x',
+        defs=['Qs.FeeModel.totalCost']),
+    KFn('ZeroFee.totalCost', 'qstrader/broker/fee_model/zero_fee_model.py', 'ZeroFeeModel', 'calc_total_cost', 'ZeroFee.totalCost',
+        binders=[('asset', 'String'), ('q', 'Int'), ('x', 'α')], fields={}, params=FEE_PARAMS, ret='num',
+        statement='(asset : String) (q : Int) (x : α) :\n    GEN (α := α) asset q x = Qs.FeeModel.totalCost (.zero : Qs.FeeModel α) x',
+        defs=['Qs.FeeModel.totalCost']),
+    KFn('DW.normalise', 'qstrader/portcon/order_sizer/dollar_weighted.py', 'DollarWeightedCashBufferedOrderSizer', '_normalise_weights',
+        'DW.normalise', binders=[('w', 'Qs.Weights α')], fields={}, params=[('weights', W)], ret='exc:dict:num',
+        statement='(w : Qs.Weights α) :\n    GEN w = Qs.dwNormalise w', defs=SIZER_DEFS),
+    KFn('LS.normalise', 'qstrader/portcon/order_sizer/long_short.py', 'LongShortLeveragedOrderSizer', '_normalise_weights',
+        'LS.normalise', binders=[('leverage', 'α'), ('w', 'Qs.Weights α')], fields=dict(gross_leverage=V('leverage', 'num')),
+        params=[('weights', W)], ret='dict:num',
+        statement='(leverage : α) (w : Qs.Weights α) :\n    GEN leverage w = Qs.lsNormalise leverage w', defs=SIZER_DEFS),
+    KFn('DW.quantity', 'qstrader/portcon/order_sizer/dollar_weighted.py', 'DollarWeightedCashBufferedOrderSizer', '__call__', 'DW.quantity',
+        binders=[('fee', 'Qs.FeeModel α'), ('equity', 'α'), ('buffer', 'α'), ('weight', 'α'), ('price', 'α')],
+        fields=dict(cash_buffer_percentage=V('buffer', 'num')), params=[('dt', ('opaque', 'the timestamp')), ('weights', ('opaque', 'the weights'))],
+        ret='int', kind='kernel', sink=_sizer_sink, loop_bind=('tup', [V('a', 'str'), V('weight', 'num')]),
+        subst=[('_obtain_broker_portfolio_total_equity', _const_subst(V('equity', 'num'))), ('fee_model.calc_total_cost', _fee_subst),
+               ('get_asset_latest_ask_price', _const_subst(V('price', 'num')))],
+        statement='(fee : Qs.FeeModel α) (equity buffer weight price : α) :\n'
+                  '    GEN fee equity buffer weight price = Qs.dwQuantity fee (equity * (Num.one - buffer)) weight price', defs=SIZER_DEFS),
+    KFn('LS.quantity', 'qstrader/portcon/order_sizer/long_short.py', 'LongShortLeveragedOrderSizer', '__call__', 'LS.quantity',
+        binders=[('fee', 'Qs.FeeModel α'), ('equity', 'α'), ('weight', 'α'), ('price', 'α')],
+        fields={}, params=[('dt', ('opaque', 'the timestamp')), ('weights', ('opaque', 'the weights'))],
+        ret='int', kind='kernel', sink=_sizer_sink, loop_bind=('tup', [V('a', 'str'), V('weight', 'num')]),
+        subst=[('_obtain_broker_portfolio_total_equity', _const_subst(V('equity', 'num'))), ('fee_model.calc_total_cost', _fee_subst),
+               ('get_asset_latest_ask_price', _const_subst(V('price', 'num')))],
+        statement='(fee : Qs.FeeModel α) (equity weight price : α) :\n    GEN fee equity weight price = Qs.lsQuantity fee equity weight price',
+        defs=SIZER_DEFS),
+    KFn('Broker.makeTxn', 'qstrader/broker/simulated_broker.py', 'SimulatedBroker', '_execute_order', 'Broker.makeTxn',
+        binders=[('clock', 'Int'), ('fee', 'Qs.FeeModel α'), ('cash', 'α'), ('bid', 'α'), ('ask', 'α'), ('o', 'Qs.Order')],
+        fields=dict(current_dt=V('clock', 'int')), expr_subst={'self.portfolios[portfolio_id].cash': V('cash', 'num')},
+        params=[('dt', ('opaque', 'the update time')), ('portfolio_id', ('opaque', 'the portfolio')), ('order', V('o', 'obj:Order'))],
+        ret='struct', kind='kernel', sink=_txn_sink, obj_types=ORDER_OBJ,
+        subst=[('get_asset_latest_bid_ask_price', _const_subst(('tup', [V('bid', 'num'), V('ask', 'num')]))), ('fee_model.calc_total_cost', _fee_subst)],
+        statement='(b : Qs.Broker α) (q : Qs.Quotes α) (o : Qs.Order) (cash bid ask : α) (h : q o.asset = some (bid, ask)) :\n'
+                  '    Qs.Broker.makeTxn b q o = .ok (GEN b.clock b.fee cash bid ask o)',
+        defs=['Qs.Broker.makeTxn', 'Qs.FeeModel.totalCost', 'Qs.Order.direction', 'Qs.dirOf']),
+]
+
+KHEADER = """/-
+  GENERATED by harness/translate.py from the working tree of the repository — do not edit.
+  Fee models, the per-asset sizing kernels, weight normalisation and the fill kernel of the broker, read off the Python source.
+-/
+import QsModel.Sizer
+import QsModel.Broker
+
+namespace Qs.Gen
+open NumOps Num
+
+section
+variable {α : Type} [Add α] [Sub α] [Mul α] [Div α] [Neg α] [NumOps α]
+
+"""
+
+
 HEADER = '''/-
   GENERATED by harness/translate.py from %s (working tree of the repository) — do not edit.
   Each definition is the symbolic execution of the Python method of the same name.
@@ -874,6 +1266,38 @@ def generate(outdir=None, verbose=False, omit_defs=(), omit_thms=()):
         tie += 'end Qs.Tie\n'
         _write_if_changed(os.path.join(outdir, 'QsGen', u.ns + '.lean'), gen)
         _write_if_changed(os.path.join(outdir, 'QsProofs', 'Tie', u.ns + 'Gen.lean'), tie)
+    # kernel units
+    gen = KHEADER
+    tie = TIE_HEAD % ('the fee models, order sizers and the broker\'s fill kernel', 'Kernels')
+    for fn in KFNS:
+        text, why = translate_kfn(fn)
+        if text is not None and fn.key in omit_defs:
+            text, why = None, 'the generated definition does not typecheck'
+        if text is None:
+            status[fn.key] = dict(translated=False, reason=why, python='%s.%s' % (fn.cls, fn.py), file=fn.path, unit='Kernels')
+            gen += '-- %s.%s: not translatable (%s)\n\n' % (fn.cls, fn.py, why)
+            continue
+        ns, nm = fn.lean.split('.')
+        g0 = gen.count('\n') + 1
+        gen += 'namespace %s\n/-- kernel of `%s.%s` -/\n%send %s\n\n' % (ns, fn.cls, fn.py, text, ns)
+        name = 'tie_%s_%s' % (ns, nm)
+        full = 'Qs.Tie.' + name
+        ent = dict(translated=True, python='%s.%s' % (fn.cls, fn.py), file=fn.path, unit='Kernels', theorem=full,
+                   def_span=[g0, gen.count('\n')])
+        if full in omit_thms:
+            ent['proved'] = False
+            tie += '-- %s: the proof does not check against the current source\n\n' % name
+        else:
+            t0 = tie.count('\n') + 1
+            core = ['Qs.Gen.' + fn.lean] + fn.defs
+            tie += 'theorem %s %s := by\n  first\n  | qs_tie [%s]\n  | qs_tie_h h [%s]\n\n' % (
+                name, fn.statement.replace('GEN', 'Qs.Gen.' + fn.lean), ', '.join(core), ', '.join(core))
+            ent['thm_span'] = [t0, tie.count('\n')]
+        status[fn.key] = ent
+    gen += 'end\nend Qs.Gen\n'
+    tie += 'end Qs.Tie\n'
+    _write_if_changed(os.path.join(outdir, 'QsGen', 'Kernels.lean'), gen)
+    _write_if_changed(os.path.join(outdir, 'QsProofs', 'Tie', 'KernelsGen.lean'), tie)
     if verbose:
         for k, v in status.items():
             if '#' not in k:
